@@ -148,8 +148,9 @@ def check_query(q, funcs, enums, tier, logdir):
         for i, p in enumerate(paths):
             pv = PathView(ctx, p)
             if p.outcome == "unreachable":
-                # `unreachable` terminators must be unreachable: treated like a panic obligation
-                items.append((i, p, None))
+                # rustc emits `unreachable` only where the type's validity invariant excludes the
+                # branch (e.g. discriminant of an Option outside {0,1}); such paths are infeasible
+                continue
             elif p.outcome == "panic":
                 allowed = q.get("allowed_panics")
                 if allowed and re.search(allowed, p.detail or ""):
